@@ -465,6 +465,7 @@ func hunt(o Opts) {
 		Case    Case   `json:"case"`
 		Tried   int    `json:"tried"`
 		Grid    int    `json:"grid_models"`
+		Known   []Known `json:"known"`
 	}
 	var r res
 	report := func(c Case) {
@@ -523,7 +524,39 @@ func hunt(o Opts) {
 			}
 		}
 	}
+	r.Known = knownCheck()
 	b, _ := json.MarshalIndent(r, "", " ")
 	os.MkdirAll(o.Out, 0755)
 	os.WriteFile(o.Out+"/hunt.json", b, 0644)
+}
+
+// ---------------------------------------------------------------- known finding
+
+type Known struct {
+	Id    string `json:"id"`
+	Still bool   `json:"still"`
+	What  string `json:"what"`
+}
+
+// F-C15-TF-SELFLOOP: SetFinalStates renormalises the masked transition matrix
+// with HmmTransitionMatrix.Normalize, which turns a row without any mass on
+// the final states into a self loop -- also for a state that is not final.
+// Witness: identity transitions, final states {1}: sequences may still end in
+// state 0 (Viterbi returns [0 0], the posterior of state 0 at the last
+// position is 0.8).  The model follows the code; the enumeration of the
+// property uses Tf as the library builds it.
+func knownCheck() []Known {
+	c := Case{Kind: "table", M: 2, Pi: []float64{0.5, 0.5}, Tr: [][]float64{{1, 0}, {0, 1}}, Final: []int{1},
+		Seqs: []Seq{{N: 2, Em: [][]float64{{0.5, 0.5}, {0.25, 0.25}}}}}
+	k := Known{Id: "F-C15-TF-SELFLOOP"}
+	obs, err := observe(c)
+	if err == nil && len(obs.Seqs) == 1 && len(obs.Seqs[0].Vit) == 2 {
+		last := obs.Seqs[0].Vit[1]
+		if last == 0 && expv(obs.Tf[0][0]) == 1 && obs.Seqs[0].MargOk && expv(obs.Seqs[0].Marg[1][0]) > 0 {
+			k.Still = true
+			k.What = fmt.Sprintf("final states {1}, Tr = identity: Tf[0][0] = %g, Viterbi path %v ends in the non-final state 0, posterior of state 0 at the last position %g",
+				expv(obs.Tf[0][0]), obs.Seqs[0].Vit, expv(obs.Seqs[0].Marg[1][0]))
+		}
+	}
+	return []Known{k}
 }
